@@ -80,6 +80,7 @@ type Opts struct {
 	Mock        *clock.Mock // mock clock + timer event definitions
 	Fan         *event.FanOut // event bus shared with other instances (only with Mock; nil = a private one)
 	Ctx         context.Context
+	EngineCtx   context.Context // context given to the engine (WithEngineContext); nil = the instance's own context
 	OnTrace     func(in *Inst, e *Ev) // called by the consumer of subscriber 0 for each trace
 	NoSubscribe bool
 	IdGen       id.IGenerator
@@ -258,7 +259,11 @@ func New(label string, defs *schema.Definitions, o Opts) (*Inst, error) {
 		base = clock.ToContext(base, o.Mock)
 	}
 	in.Ctx, in.Cancel = context.WithCancel(base)
-	engine := bpmn.NewEngine(bpmn.WithEngineContext(in.Ctx))
+	ectx := o.EngineCtx
+	if ectx == nil {
+		ectx = in.Ctx
+	}
+	engine := bpmn.NewEngine(bpmn.WithEngineContext(ectx))
 	opts := []bpmn.Option{bpmn.WithContext(in.Ctx)}
 	if o.Vars != nil {
 		opts = append(opts, bpmn.WithVariables(o.Vars))
